@@ -93,9 +93,9 @@ namespace xtl
             return std::size_t(murmur2_x86_impl(buffer, length, static_cast<uint32_t>(seed)));
         }
 
-        inline std::size_t load_bytes(const char* p, int n)
+        inline uint64_t load_bytes(const char* p, int n)
         {
-            std::size_t result = 0;
+            uint64_t result = 0;
             --n;
             do
             {
@@ -104,20 +104,19 @@ namespace xtl
             return result;
         }
 
-#if INTPTR_MAX == INT64_MAX
-        // 64-bits hash for 64-bits platform
-        template <>
-        inline std::size_t murmur_hash<8>(const void* buffer, std::size_t length, std::size_t seed)
+        // MurmurHash64A, written on uint64_t so that murmur2_x64 returns the same
+        // 64-bit value on every platform (std::size_t is only 32 bits wide on 32-bit ones)
+        inline uint64_t murmur2_x64_impl(const void* buffer, std::size_t length, uint64_t seed)
         {
-            constexpr std::size_t m = (static_cast<std::size_t>(0xc6a4a793UL) << 32UL) +
-                static_cast<std::size_t>(0x5bd1e995UL);
+            constexpr uint64_t m = (static_cast<uint64_t>(0xc6a4a793UL) << 32UL) +
+                static_cast<uint64_t>(0x5bd1e995UL);
             constexpr int r = 47;
             const char* data = static_cast<const char*>(buffer);
             const char* end = data + (length & std::size_t(~0x7));
-            std::size_t hash = seed ^ (length * m);
+            uint64_t hash = seed ^ (static_cast<uint64_t>(length) * m);
             while (data != end)
             {
-                std::size_t k;
+                uint64_t k;
                 std::memcpy(&k, data, sizeof(k));
                 k *= m;
                 k ^= k >> r;
@@ -128,7 +127,7 @@ namespace xtl
             }
             if ((length & 0x7) != 0)
             {
-                std::size_t k = load_bytes(end, length & 0x7);
+                uint64_t k = load_bytes(end, static_cast<int>(length & 0x7));
                 hash ^= k;
                 hash *= m;
             }
@@ -138,52 +137,16 @@ namespace xtl
 
             return hash;
         }
-#elif INTPTR_MAX == INT32_MAX
-        //64-bits hash for 32-bits platform
-        inline void mmix(uint32_t& h, uint32_t& k, uint32_t m, int r)
-        {
-            k *= m; k ^= k >> r; k *= m; h *= m; h ^= k;
-        }
 
+#if INTPTR_MAX == INT64_MAX
+        // 64-bits hash for 64-bits platform
         template <>
         inline std::size_t murmur_hash<8>(const void* buffer, std::size_t length, std::size_t seed)
         {
-            const uint32_t m = 0x5bd1e995;
-            const int r = 24;
-            uint32_t l = length;
-
-            const auto* data = reinterpret_cast<const unsigned char*>(buffer);
-
-            uint32_t h = seed;
-
-            while (length >= 4)
-            {
-                uint32_t k = *(uint32_t*)data;
-
-                mmix(h, k, m, r);
-
-                data += 4;
-                length -= 4;
-            }
-
-            uint32_t t = 0;
-
-            switch (length)
-            {
-            case 3: t ^= data[2] << 16;
-            case 2: t ^= data[1] << 8;
-            case 1: t ^= data[0];
-            };
-
-            mmix(h, t, m, r);
-            mmix(h, l, m, r);
-
-            h ^= h >> 13;
-            h *= m;
-            h ^= h >> 15;
-
-            return h;
+            return static_cast<std::size_t>(murmur2_x64_impl(buffer, length, seed));
         }
+#elif INTPTR_MAX == INT32_MAX
+        // 32-bits platform: hash_bytes uses murmur_hash<4>
 #else
 #error Unknown pointer size or missing size macros!
 #endif
@@ -201,7 +164,7 @@ namespace xtl
 
     inline uint64_t murmur2_x64(const void* buffer, std::size_t length, uint64_t seed)
     {
-        return detail::murmur_hash<8>(buffer, length, seed);
+        return detail::murmur2_x64_impl(buffer, length, seed);
     }
 }
 
